@@ -54,6 +54,11 @@ def compiles(files):
     return None
 
 
+# statement shapes of listed findings whose results are nevertheless executed and compared
+TRACED_STATEMENT_TAGS = ('statements_read_a_variable_they_rebind',
+                         'statements_rebind_a_variable_only_conditionally')
+
+
 def shape_tag(sel, kind, refac):
     """Shape tags of the listed extract_function findings (generator/ast facts, never guessed
     from jedi's output)."""
@@ -79,6 +84,8 @@ def shape_tag(sel, kind, refac):
         return 'statement_range_contains_global_or_nonlocal'
     if sel.get('is_stmt') and f.get('reads_variable_it_rebinds'):
         return 'statements_read_a_variable_they_rebind'
+    if sel.get('is_stmt') and f.get('rebinds_only_conditionally'):
+        return 'statements_rebind_a_variable_only_conditionally'
     if sel.get('is_stmt') and f.get('has_return_or_yield') and kind == 'range_nl':
         return 'return_statement_selected_including_its_newline'
     if sel.get('is_stmt') and kind == 'range_nl':
@@ -205,7 +212,8 @@ def run(spec):
         if refac == 'extract_function' and sel.get('is_stmt'):
             # statement ranges: compile-or-refuse always; trace equality for blocks of plain
             # assignments with pure values, selected in the convention upstream's fixtures use
-            claim = bool(kind == 'range_in' and not tag and sel['flags'].get('pure_block'))
+            claim = bool(kind == 'range_in' and (not tag or tag in TRACED_STATEMENT_TAGS)
+                         and sel['flags'].get('pure_block'))
         if claim:
             trace1 = c05.run_program(dest)
             rec.ev('c06:traces_compared')
